@@ -109,6 +109,14 @@ RUNS_CONSTRUCTS = {
                                        "  let ((l, _), k) = p\n  sum(l) * g + k\n}\n",
     "tuple_placeholder_in_function": SUM + "fn gain_of(p:(L, float))->float{\n  let (_, g) = p\n  g\n}\nfn dsp(){\n  let p = (Cons(1.0, Nil), 0.5)\n"
                                      "  let g = gain_of(p)\n  let (l, _) = p\n  sum(l) * g\n}\n",
+    # a closure that is scheduled while another reference to it stays in use: made once at global scope and scheduled
+    # again by every dsp call; one local closure (capturing a parameter) with two schedulings pending at once
+    "sched_global_closure_from_dsp": "let acc = 0.0\nfn mk(k){\n  | |{ acc = acc + k }\n}\nlet bump = mk(1.0)\nfn dsp(){\n"
+                                     "  let _ = bump@(now+1.0)\n  acc\n}\n",
+    "sched_same_closure_two_times": "let acc = 0.0\nfn arm(k){\n  let f = | |{ acc = acc + k }\n  let _ = f@(now+1.0)\n  let _ = f@(now+3.0)\n"
+                                    "  0.0\n}\nlet _ = arm(1.0)\nfn dsp(){\n  acc\n}\n",
+    "sched_same_closure_three_times": "let acc = 0.0\nfn arm(k){\n  let f = | |{ acc = acc + k }\n  let _ = f@(now+2.0)\n  let _ = f@(now+2.0)\n"
+                                      "  let _ = f@(now+5.0)\n  0.0\n}\nlet _ = arm(1.0)\nfn dsp(){\n  acc\n}\n",
     "variant_rebuilt_each_sample": SUM + "fn dsp(){\n  let a = Cons(now, Cons(1.0, Nil))\n  let b = { let c = Cons(2.0, a)\n sum(c) }\n  sum(a) + b\n}\n",
 }
 # recursive variant values: steady on the VM (the WASM host keeps them: pinned fixtures type_recursive_*.mmm)
